@@ -330,15 +330,25 @@ def r09_4(ctx):
             ok = False
             for b in bodies:
                 rows = {}
+                same = True
                 for p in Sym(b, copies=True, max_paths=300000).paths():
-                    qm = [v for a, v in p.conds if a[0] == "call" and a[1].rsplit("::", 1)[1] == "contains" and a[2][1] == ("const", "?")]
+                    qm = [(v, a[2][0]) for a, v in p.conds if a[0] == "call" and a[1].rsplit("::", 1)[1] == "contains" and a[2][1] == ("const", "?")]
                     if not qm:
                         continue
                     pushed = [e[2][1] for e in p.events if e[0] == "call" and e[1] == "std::string::String::push" and e[2][1][0] == "const"]
-                    rows.setdefault(qm[0], set()).update(pushed)
-                if rows.get(1) == {("const", "&")} and rows.get(0) == {("const", "?")}:
+                    rows.setdefault(qm[0][0], set()).update(pushed)
+                    # the string tested for `?` is the one the parameters are appended to: the target after
+                    # the markers were replaced (a `?` may come from a marker value)
+                    def base(x):
+                        while x[0] == "call" and x[1].rsplit("::", 1)[1] in ("deref", "deref_mut", "as_str", "as_mut_str", "as_ref", "borrow") and x[2]:
+                            x = x[2][0]
+                        return x
+                    recv = {base(e[2][0]) for e in p.events if e[0] == "call" and e[1] in ("std::string::String::push", "std::string::String::push_str")}
+                    if recv and recv != {base(qm[0][1])}:
+                        same = False
+                if rows.get(1) == {("const", "&")} and rows.get(0) == {("const", "?")} and same:
                     ok = True
-            r.ob("marketing:appended:%s" % key.rsplit("::", 1)[1], ok, g.site, "skipped parameters are appended with `&` when the target has a query, else with `?`")
+            r.ob("marketing:appended:%s" % key.rsplit("::", 1)[1], ok, g.site, "skipped parameters are appended with `&` when the replaced target has a query, else with `?`")
     ctx.run_rule("R09.4", "marketing parameter tables", body, floor=5)
 
 
